@@ -223,14 +223,21 @@ namespace Sys
 /-- the app connection `c` is bound to -/
 def appOf (s : Sys) (c : Nat) : Option String := (s.findConn c).bind (·.app)
 
-/-- `op` is a command of a connection that is bound to an app other than `b` once the command
-    has been processed (so: a command of a connection already bound to another app, or the
-    `bind` that binds it to another app) -/
+/-- `op` is a command of another app: a message on a connection that is bound to an app other
+    than `b`, or the `bind` that binds an unbound connection to an app other than `b` (the
+    condition under which `handle_bind` accepts is spelled out: no app id yet, no non-empty
+    side yet, both keys present). Decided on the state BEFORE the operation. -/
 def otherOp (b : String) (s : Sys) : Op → Bool
-  | .recv c t id cmd =>
-    match (s.step (.recv c t id cmd)).appOf c with
-    | some a => decide (a ≠ b)
+  | .recv c _ _ cmd =>
+    match s.findConn c with
     | none => false
+    | some x =>
+      match x.app with
+      | some a => decide (a ≠ b)
+      | none =>
+        match cmd with
+        | .bind (some a) (some _) _ _ => decide (a ≠ b) && !(decide (x.side.isSome ∧ x.side ≠ some ""))
+        | _ => false
   | _ => false
 
 end Sys
